@@ -617,6 +617,114 @@ fn seeds_b64<const C: usize>(r: &mut Rng) -> Vec<Seed> {
     ms.into_iter().map(|m| s0(if C == 4 { zipora::system::base64::base64_encode_simd(&m) } else { b64(C).encode(&m) }.into_bytes())).collect()
 }
 
+// ---------------------------------------------------------------------------------------------
+// further parsers outside the anchored files (same property: bytes from outside the process)
+// ---------------------------------------------------------------------------------------------
+fn p_simd_varint(b: &[u8], _: u64) -> R { zipora::io::simd_encoding::varint::decode_varint(b).map(|(v, n)| vec![v as i128, n as i128]).map_err(es) }
+fn p_simd_varint_batch(b: &[u8], arg: u64) -> R {
+    zipora::io::simd_encoding::varint::decode_varint_batch(b, usz(arg)).map(|v| v.into_iter().take(64).map(|x| x as i128).collect()).map_err(es)
+}
+fn seeds_simd_varint(r: &mut Rng) -> Vec<Seed> { seeds_varint(r) }
+fn seeds_simd_varint_batch(r: &mut Rng) -> Vec<Seed> {
+    let mut v = vec![];
+    for xs in seq_pool_u(r) {
+        if let Ok(Ok(b)) = crate::util::guarded(|| zipora::io::simd_encoding::varint::encode_varint_batch(&xs)) { v.push(Seed { bytes: b, len: xs.len() as u64 }); }
+    }
+    let big: Vec<u64> = (0..40).map(|i| (i as u64) << (i % 50)).collect();
+    if let Ok(Ok(b)) = crate::util::guarded(|| zipora::io::simd_encoding::varint::encode_varint_batch(&big)) { v.push(Seed { bytes: b, len: 40 }); }
+    v
+}
+fn p_simd_b64(b: &[u8], _: u64) -> R {
+    let s = std::str::from_utf8(b).map_err(es)?;
+    zipora::io::simd_encoding::base64::decode_base64(s).map(|v| obs_bytes(&v)).map_err(es)
+}
+fn p_simd_b64_buf(b: &[u8], arg: u64) -> R {
+    let mut out = vec![0u8; usz(arg.min(4096))];
+    zipora::io::simd_encoding::base64::decode_base64_from_buffer(b, &mut out).map(|n| vec![n as i128]).map_err(es)
+}
+fn seeds_b64_len(r: &mut Rng) -> Vec<Seed> {
+    let mut ms = vec![b"f".to_vec(), b"foobar".to_vec(), vec![0xfb, 0xff, 0xfe, 0x00]];
+    ms.push(r.bytes(31));
+    ms.into_iter().map(|m| Seed { len: m.len() as u64, bytes: zipora::system::base64::base64_encode_simd(&m).into_bytes() }).collect()
+}
+fn p_sa_dict(b: &[u8], _: u64) -> R {
+    zipora::compression::dict_zip::SuffixArrayDictionary::deserialize(b).map(|d| vec![d.dictionary_text().len() as i128]).map_err(es)
+}
+fn seeds_sa_dict(_r: &mut Rng) -> Vec<Seed> {
+    use zipora::compression::dict_zip::{DictionaryBuilder as DB, DictionaryBuilderConfig};
+    let r = crate::util::guarded(|| -> Option<Vec<u8>> {
+        let cfg = DictionaryBuilderConfig { target_dict_size: 256, max_dict_size: 512, validate_result: true, ..Default::default() };
+        DB::with_config(cfg).build(&TRAIN[..160]).ok()?.serialize().ok()
+    });
+    match r { Ok(Some(b)) if b.len() < 5000 => vec![s0(b)], _ => vec![] }
+}
+fn p_dfa_cache(b: &[u8], _: u64) -> R {
+    zipora::compression::dict_zip::DfaCache::deserialize(b).map(|_| vec![1]).map_err(es)
+}
+fn seeds_dfa_cache(_r: &mut Rng) -> Vec<Seed> {
+    use zipora::compression::dict_zip::{DictionaryBuilder as DB, DictionaryBuilderConfig};
+    // the cache blob is embedded in the dictionary blob; a cache built from a tiny dictionary
+    let r = crate::util::guarded(|| -> Option<Vec<u8>> {
+        let cfg = DictionaryBuilderConfig { target_dict_size: 128, max_dict_size: 256, validate_result: true, ..Default::default() };
+        let d = DB::with_config(cfg).build(&TRAIN[..100]).ok()?;
+        let blob = d.serialize().ok()?;
+        // SerializableDictionary = { dictionary_text: Vec<u8>, dfa_cache_data: Vec<u8>, .. } in bincode: u64 len + bytes, twice
+        let n = u64::from_le_bytes(blob.get(..8)?.try_into().ok()?) as usize;
+        let at = 8 + n;
+        let m = u64::from_le_bytes(blob.get(at..at + 8)?.try_into().ok()?) as usize;
+        Some(blob.get(at + 8..at + 8 + m)?.to_vec())
+    });
+    match r { Ok(Some(b)) if b.len() < 5000 => vec![s0(b)], _ => vec![s0(vec![0; 16])] }
+}
+fn p_fse_cfg<const C: usize>(b: &[u8], _: u64) -> R {
+    use zipora::entropy::FseConfig;
+    let cfg = match C { 0 => FseConfig::fast_compression(), 1 => FseConfig::high_compression(), _ => FseConfig::realtime() };
+    zipora::entropy::fse_decompress_with_config(b, cfg).map(|v| obs_bytes(&v)).map_err(es)
+}
+fn seeds_fse_cfg<const C: usize>(r: &mut Rng) -> Vec<Seed> {
+    use zipora::entropy::FseConfig;
+    let mut v: Vec<Seed> = messages(r).into_iter().filter_map(|m| crate::util::guarded(|| {
+        let cfg = match C { 0 => FseConfig::fast_compression(), 1 => FseConfig::high_compression(), _ => FseConfig::realtime() };
+        zipora::entropy::fse_compress_with_config(&m, cfg).ok()
+    }).ok().flatten()).map(s0).collect();
+    if v.is_empty() { v.push(s0(vec![3, 0, 0, 0, 0xFF, b'a', b'b', b'c'])); }
+    v
+}
+macro_rules! slz_variant { ($p:ident, $s:ident, $t:ident) => {
+    fn $p(b: &[u8], _: u64) -> R {
+        let mut c = zipora::compression::simd_lz77::$t::new().map_err(es)?;
+        c.decompress(b).map(|v| obs_bytes(&v)).map_err(es)
+    }
+    fn $s(r: &mut Rng) -> Vec<Seed> {
+        let mut v: Vec<Seed> = messages(r).into_iter().take(3).filter_map(|m| crate::util::guarded(|| {
+            zipora::compression::simd_lz77::$t::new().ok().and_then(|mut c| c.compress(&m).ok())
+        }).ok().flatten()).map(s0).collect();
+        v.extend(seeds_pz_matches(r));
+        v
+    }
+}}
+slz_variant!(p_slz_x1, seeds_slz_x1, SimdLz77CompressorX1);
+slz_variant!(p_slz_x2, seeds_slz_x2, SimdLz77CompressorX2);
+slz_variant!(p_slz_x4, seeds_slz_x4, SimdLz77CompressorX4);
+slz_variant!(p_slz_x8, seeds_slz_x8, SimdLz77CompressorX8);
+fn p_slz_global(b: &[u8], _: u64) -> R { zipora::compression::simd_lz77::decompress_with_simd_lz77(b).map(|v| obs_bytes(&v)).map_err(es) }
+fn p_mmapped_input(b: &[u8], _: u64) -> R {
+    let p = tmp_path("mminput");
+    std::fs::write(&p, b).map_err(es)?;
+    let r = (|| -> R {
+        let mut i = zipora::io::MemoryMappedInput::from_path(&p).map_err(es)?;
+        let a = i.read_var_int().map_err(es)?;
+        let s = i.read_length_prefixed_string().map_err(es)?;
+        let n = i.read_var_int().map_err(es)?;
+        i.skip(n as usize).map_err(es)?;
+        let x = i.read_u8().map_err(es)?;
+        Ok(vec![a as i128, s.len() as i128, x as i128])
+    })();
+    let _ = std::fs::remove_file(&p);
+    r
+}
+fn seeds_mmapped_input(_r: &mut Rng) -> Vec<Seed> { vec![s0(vec![0x85, 0x01, 4, b'd', b'a', b't', b'a', 2, 9, 9, 42, 7])] }
+
 macro_rules! P {
     ($name:expr, $model:expr, $arg:expr, $cheap:expr, $run:expr, $seeds:expr) => {
         Parser { name: $name, model: $model, has_arg: $arg, cheap: $cheap, run: $run, seeds: $seeds }
@@ -696,6 +804,21 @@ pub fn parsers() -> Vec<Parser> {
         P!("base64/standard_no_pad", 0, false, true, p_b64::<2>, seeds_b64::<2>),
         P!("base64/url_safe_no_pad", 0, false, true, p_b64::<3>, seeds_b64::<3>),
         P!("base64_decode_simd", 0, false, true, p_b64::<4>, seeds_b64::<4>),
+        P!("simd_encoding/decode_varint", 0, false, true, p_simd_varint, seeds_simd_varint),
+        P!("simd_encoding/decode_varint_batch", 0, true, true, p_simd_varint_batch, seeds_simd_varint_batch),
+        P!("simd_encoding/decode_base64", 0, false, true, p_simd_b64, seeds_b64::<4>),
+        P!("simd_encoding/decode_base64_from_buffer", 0, true, true, p_simd_b64_buf, seeds_b64_len),
+        P!("SuffixArrayDictionary::deserialize", 0, false, false, p_sa_dict, seeds_sa_dict),
+        P!("DfaCache::deserialize", 0, false, false, p_dfa_cache, seeds_dfa_cache),
+        P!("fse_decompress_with_config/fast", 0, false, false, p_fse_cfg::<0>, seeds_fse_cfg::<0>),
+        P!("fse_decompress_with_config/high", 0, false, false, p_fse_cfg::<1>, seeds_fse_cfg::<1>),
+        P!("fse_decompress_with_config/realtime", 0, false, false, p_fse_cfg::<2>, seeds_fse_cfg::<2>),
+        P!("SimdLz77CompressorX1::decompress", 0, false, false, p_slz_x1, seeds_slz_x1),
+        P!("SimdLz77CompressorX2::decompress", 0, false, false, p_slz_x2, seeds_slz_x2),
+        P!("SimdLz77CompressorX4::decompress", 0, false, false, p_slz_x4, seeds_slz_x4),
+        P!("SimdLz77CompressorX8::decompress", 0, false, false, p_slz_x8, seeds_slz_x8),
+        P!("decompress_with_simd_lz77", 0, false, false, p_slz_global, seeds_simd_lz77),
+        P!("MemoryMappedInput", 0, false, false, p_mmapped_input, seeds_mmapped_input),
     ]);
     macro_rules! comp { ($($a:literal),*) => { $(
         v.push(P!(Box::leak(format!("Compressor/{}/decompress", ALGS[$a].0).into_boxed_str()), 0, false, false, p_comp::<$a>, seeds_comp::<$a>));
